@@ -37,3 +37,11 @@ def c02_division_on_negative(case, reason):
     its dividend or divisor is negative as a signed number (flag computed by spec/Fixed.tla DivOnNegative by
     stepping the program on the case's inputs): the instruction divides unsigned"""
     return case.get("verdict") == "wrong" and case.get("div_on_negative") is True
+
+
+def c04_shared_sub_frames(case, reason):
+    """F34: the final values are exactly those of the store in which the locals of the sub-program instances share
+    one byte memory at their real addresses while every other variable keeps its own cell (spec/VarFrame.tla
+    AliasExplains, evaluated on the case's own statements and layout) - and there are two instances to share"""
+    return (case.get("verdict") == "wrong" and case.get("explained_by_shared_sub_frames") is True
+            and case.get("n_subs", 0) >= 2)
